@@ -243,14 +243,14 @@ def coq_failed_files(make_output):
     return sorted(set(fails))
 
 
-def coq_eval(ctx, name, body, timeout=900):
+def coq_eval(ctx, name, body, timeout=300):
     """compiles a scratch .v file (coq/cases_<name>.v) importing the development; returns stdout"""
     path = os.path.join(COQ, "cases_%s.v" % name)
     with open(path, "w") as f:
         f.write(body)
     t = time.time()
-    rc, o = sh(["timeout", str(timeout), "coqc", "-Q", ".", "TP", "-w", "-notation-overridden", os.path.basename(path)],
-               cwd=COQ, timeout=timeout + 30)
+    rc, o = sh(["bash", "-c", "ulimit -s unlimited 2>/dev/null || ulimit -s 4000000 2>/dev/null; exec timeout %d coqc -Q . TP -w -notation-overridden %s"
+                % (timeout, os.path.basename(path))], cwd=COQ, timeout=timeout + 30)
     ctx.log("coqc cases_%s.v: rc=%d in %.1fs" % (name, rc, time.time() - t))
     for ext in (".vo", ".vok", ".vos", ".glob"):
         try:
